@@ -263,9 +263,17 @@ func (c *RemoteClient) Databases() []DatabaseInfo {
 }
 
 func (c *RemoteClient) Database(name string) *DatabaseInfo {
-	for _, db := range c.Databases() {
-		if strings.EqualFold(db.Name, name) {
-			return &db
+	// PostgreSQL names are case-sensitive: an exact match wins; otherwise the first
+	// case-insensitive match in pg_database order
+	dbs := c.Databases()
+	for i := range dbs {
+		if dbs[i].Name == name {
+			return &dbs[i]
+		}
+	}
+	for i := range dbs {
+		if strings.EqualFold(dbs[i].Name, name) {
+			return &dbs[i]
 		}
 	}
 	return nil
@@ -310,10 +318,17 @@ func (c *RemoteClient) TablesByName(dbName string) []TableInfo {
 }
 
 func (c *RemoteClient) Table(dbOID uint32, tableName string) *TableInfo {
-	c.loadCatalog(dbOID)
-	for _, t := range c.cache.tables[dbOID] {
-		if strings.EqualFold(t.Name, tableName) {
-			return &t
+	// an exact match wins; otherwise the first case-insensitive match in filenode order
+	// (ranging over the map made the answer random for names differing only in case)
+	tables := c.Tables(dbOID)
+	for i := range tables {
+		if tables[i].Name == tableName {
+			return &tables[i]
+		}
+	}
+	for i := range tables {
+		if strings.EqualFold(tables[i].Name, tableName) {
+			return &tables[i]
 		}
 	}
 	return nil
